@@ -33,11 +33,11 @@ def _setup(rng, Lmax=6, maxdim=1024):
             H = gen.rand_hermitian_mpo(rng, qd, L, Dmax=2)
             herm = True
         else:
-            H = gen.rand_mpo(rng, qd, L, Dmax=3, kind=str(rng.choice(['complex', 'real'])))
+            H = gen.rand_mpo(rng, qd, L, Dmax=3, kind=str(rng.choice(['complex', 'real', 'int'])))
             herm = False
     q0 = int(rng.integers(-1, 2))
-    psi = gen.rand_mps(rng, qd, L, str(rng.choice(['random', 'max', 'one', 'over'])), Dmax=4, kind=str(rng.choice(['complex', 'real'])), q0=q0)
-    chi = gen.rand_mps(rng, qd, L, str(rng.choice(['random', 'max', 'one'])), Dmax=3, kind='complex', q0=q0)
+    psi = gen.rand_mps(rng, qd, L, str(rng.choice(['random', 'max', 'one', 'over'])), Dmax=4, kind=str(rng.choice(['complex', 'real', 'int'])), q0=q0)
+    chi = gen.rand_mps(rng, qd, L, str(rng.choice(['random', 'max', 'one'])), Dmax=3, kind=str(rng.choice(['complex', 'complex', 'real'])), q0=q0)
     return L, len(qd), qd, H, psi, chi, src, herm
 
 
@@ -112,7 +112,11 @@ def _left_blocks(psi, H):
 def projection_case(ctx, idx, rng):
     L, d, qd, H, psi, chi, src, herm = _setup(rng, Lmax=5, maxdim=512)
     mH = refs.dense_operator(H.A)
-    nH = max(np.linalg.norm(mH, 2), 1e-300)
+    nH = float(np.prod([max(np.linalg.norm(w), 1e-300) for w in H.A]))      # natural scale of the operator
+    an = [max(float(np.linalg.norm(a)), 1e-300) for a in psi.A]
+
+    def envscale(skip):
+        return float(np.prod([an[j] for j in range(L) if j not in skip])) ** 2
     ctx.case(('projection', f'L{L}', f'd{d}', src, 'hermitian' if herm else 'general'), sample={'qd': qd, 'qD_psi': psi.qD, 'qD_H': H.qD})
     detail = {'qd': qd, 'psi': {'qD': psi.qD, 'A': psi.A}, 'H': {'qD': H.qD, 'A': H.A}}
     with monitor.write_protected(psi, H):
@@ -130,7 +134,8 @@ def projection_case(ctx, idx, rng):
         if BR[i].shape != refsR[i].shape:
             ctx.ok('right-blocks.shape', False, f'block {i} shape {BR[i].shape} != {refsR[i].shape}', detail)
             return
-        _close(ctx, 'right-blocks.dense', BR[i], refsR[i], np.linalg.norm(refsR[i]), detail)
+        sc_i = float(np.prod([an[j] ** 2 * max(np.linalg.norm(H.A[j]), 1e-300) for j in range(i + 1, L)])) if i < L - 1 else 1.0
+        _close(ctx, 'right-blocks.dense', BR[i], refsR[i], sc_i, detail)
     scale_env = nH * float(np.prod([max(np.linalg.norm(a), 1e-300) for a in psi.A])) ** 2
     A = psi.A
     c = lambda *s: gen.entries(rng, s, 'complex')
@@ -140,14 +145,14 @@ def projection_case(ctx, idx, rng):
         got = np.vdot(Y, ptn.apply_local_hamiltonian(BL[i], BR[i], H.A[i], X))
         vx = refs.dense_state(A[:i] + [X] + A[i + 1:]); vy = refs.dense_state(A[:i] + [Y] + A[i + 1:])
         want = np.vdot(vy, mH @ vx)
-        _close(ctx, 'projection.one-site', got, want, nH * np.linalg.norm(vx) * np.linalg.norm(vy) + 1e-300, detail)
+        _close(ctx, 'projection.one-site', got, want, nH * envscale((i,)) * np.linalg.norm(X) * np.linalg.norm(Y), detail)
         if herm and X.size <= 64:
             n = X.size
             M = np.zeros((n, n), dtype=complex)
             for k in range(n):
                 e = np.zeros(n, dtype=complex); e[k] = 1
                 M[:, k] = ptn.apply_local_hamiltonian(BL[i], BR[i], H.A[i], e.reshape(X.shape)).reshape(-1)
-            ctx.close('heff.hermitian[one-site]', np.linalg.norm(M - M.conj().T), 1e-10 * np.linalg.norm(M) + 1e-12 * scale_env / max(np.linalg.norm(psi.A[i]), 1e-300) ** 2, 'effective Hamiltonian not Hermitian for a Hermitian MPO', detail)
+            ctx.close('heff.hermitian[one-site]', np.linalg.norm(M - M.conj().T), 1e-10 * np.linalg.norm(M) + 1e-12 * min(scale_env / max(np.linalg.norm(psi.A[i]), 1e-150) ** 2, 1e300), 'effective Hamiltonian not Hermitian for a Hermitian MPO', detail)
         if i < L - 1:
             # two-site
             sh = (d * d, A[i].shape[1], A[i + 1].shape[2])
@@ -155,18 +160,18 @@ def projection_case(ctx, idx, rng):
             Wm = np.einsum('stab,uvbc->sutvac', H.A[i], H.A[i + 1]).reshape(d * d, d * d, H.A[i].shape[2], H.A[i + 1].shape[3])
             got = np.vdot(Y, ptn.apply_local_hamiltonian(BL[i], BR[i + 1], Wm, X))
             vx = refs.dense_state(A[:i] + [X] + A[i + 2:]); vy = refs.dense_state(A[:i] + [Y] + A[i + 2:])
-            _close(ctx, 'projection.two-site', got, np.vdot(vy, mH @ vx), nH * np.linalg.norm(vx) * np.linalg.norm(vy) + 1e-300, detail)
+            _close(ctx, 'projection.two-site', got, np.vdot(vy, mH @ vx), nH * envscale((i, i + 1)) * np.linalg.norm(X) * np.linalg.norm(Y), detail)
             # the repository's own pair merge gives the same effective operator
             Wr = ptn.merge_mpo_tensor_pair(H.A[i], H.A[i + 1])
             _close(ctx, 'projection.two-site[repo-merge]', np.vdot(Y, ptn.apply_local_hamiltonian(BL[i], BR[i + 1], Wr, X)), np.vdot(vy, mH @ vx),
-                   nH * np.linalg.norm(vx) * np.linalg.norm(vy) + 1e-300, detail)
+                   nH * envscale((i, i + 1)) * np.linalg.norm(X) * np.linalg.norm(Y), detail)
             # zero-site (bond between i and i+1)
             Dm = A[i].shape[2]
             C, E = c(Dm, Dm), c(Dm, Dm)
             got = np.vdot(E, ptn.apply_local_bond_contraction(BL[i + 1], BR[i], C))
             ax = np.einsum('ab,sbc->sac', C, A[i + 1]); ay = np.einsum('ab,sbc->sac', E, A[i + 1])
             vx = refs.dense_state(A[:i + 1] + [ax] + A[i + 2:]); vy = refs.dense_state(A[:i + 1] + [ay] + A[i + 2:])
-            _close(ctx, 'projection.zero-site', got, np.vdot(vy, mH @ vx), nH * np.linalg.norm(vx) * np.linalg.norm(vy) + 1e-300, detail)
+            _close(ctx, 'projection.zero-site', got, np.vdot(vy, mH @ vx), nH * envscale(()) * np.linalg.norm(C) * np.linalg.norm(E), detail)
             if herm and Dm * Dm <= 64:
                 n = Dm * Dm
                 M = np.zeros((n, n), dtype=complex)
